@@ -95,15 +95,169 @@ impl Shard {
         pbv(self.shard_dir) == shard_dir_of(root, self.id)
     }
 }
+
+/// Maintenance of any shard of this cache, on every exit: directories untouched, nothing created or re-bound;
+/// whatever disappeared is an evictable entry of some shard directory or a stale temporary file of some shard;
+/// whatever was re-stamped is an entry of some shard directory.
+pub open spec fn sharded_maint_frame(old: World, fin: World, root: PathV, n: usize) -> bool {
+    &&& fin.dirs == old.dirs
+    &&& fin.published == old.published
+    &&& forall|p: PathV| #[trigger] fin.files.contains_key(p) ==> old.files.contains_key(p) && fin.files[p] == old.files[p]
+    &&& forall|p: PathV| old.files.contains_key(p) && !(#[trigger] fin.files.contains_key(p)) ==> exists|i: usize| i < n && (#[trigger] shard_dir_of(root, i) == parent(p) && old.in_cache_namespace(p)
+        || (p.len() > 0 && parent(p) == child(shard_dir_of(root, i), temp_name())))
+    &&& forall|ino: InodeId| #[trigger] old.inodes.contains_key(ino) ==> fin.inodes.contains_key(ino) && (fin.inodes[ino] == old.inodes[ino] || raw_cache::restamped(old.inodes[ino], fin.inodes[ino], old, fin))
+}
+
+pub proof fn lemma_maint_from_cleanup(old: World, root: PathV, n: usize, i: usize)
+    requires
+        i < n,
+    ensures
+        forall|fin: World| #[trigger] cleanup_frame(old, fin, shard_dir_of(root, i)) ==> sharded_maint_frame(old, fin, root, n),
+{
+    assert forall|fin: World| #[trigger] cleanup_frame(old, fin, shard_dir_of(root, i)) implies sharded_maint_frame(old, fin, root, n) by {
+        assert forall|p: PathV| old.files.contains_key(p) && !(#[trigger] fin.files.contains_key(p)) implies exists|j: usize| j < n && (#[trigger] shard_dir_of(root, j) == parent(p) && old.in_cache_namespace(p)
+            || (p.len() > 0 && parent(p) == child(shard_dir_of(root, j), temp_name()))) by {
+            assert(shard_dir_of(root, i) == parent(p) && old.in_cache_namespace(p) || (p.len() > 0 && parent(p) == child(shard_dir_of(root, i), temp_name())));
+        }
+    }
+}
+
+/// `rw` gives the per-directory configuration facts that `CacheDir` operations on shard `i` require.
+pub proof fn lemma_shard_rw(c: Cache, w: World, i: usize)
+    requires
+        c.rw(w),
+        i < c.spec_n(),
+    ensures
+        w.cache_dirs.contains(shard_dir_of(c.spec_root(), i)),
+        !w.under_ro(shard_dir_of(c.spec_root(), i)),
+        !w.under_ro(child(shard_dir_of(c.spec_root(), i), temp_name())),
+        forall|n: Seq<u8>| !w.under_ro(#[trigger] child(shard_dir_of(c.spec_root(), i), n)),
+        forall|n: Seq<u8>| !w.under_ro(#[trigger] child(child(shard_dir_of(c.spec_root(), i), temp_name()), n)),
+{
+}
+
+pub proof fn lemma_sharded_from_write(old: World, fin: World, root: PathV, n: usize, i: usize, name: Seq<u8>, value: PathV)
+    requires
+        i < n,
+        write_frame(old, fin, shard_dir_of(root, i), name, value),
+    ensures
+        sharded_frame(old, fin, root, n, name, value),
+        forall|p: PathV| #[trigger] fin.files.contains_key(p) && !old.files.contains_key(p) ==> p == child(shard_dir_of(root, i), name),
+{
+    assert forall|p: PathV| old.files.contains_key(p) && !(#[trigger] fin.files.contains_key(p)) implies p == value || exists|j: usize| j < n && (#[trigger] shard_dir_of(root, j) == parent(p) && old.in_cache_namespace(p)
+        || (p.len() > 0 && parent(p) == child(shard_dir_of(root, j), temp_name()))) by {
+        if p != value {
+            assert(shard_dir_of(root, i) == parent(p) && old.in_cache_namespace(p) || (p.len() > 0 && parent(p) == child(shard_dir_of(root, i), temp_name())));
+        }
+    }
+    assert forall|p: PathV| #[trigger] fin.files.contains_key(p) && !old.files.contains_key(p) implies exists|j: usize| j < n && p == child(#[trigger] shard_dir_of(root, j), name) by {
+        assert(p == child(shard_dir_of(root, i), name));
+    }
+    assert forall|d: PathV| #[trigger] fin.dirs.contains(d) && !old.dirs.contains(d) implies exists|j: usize| j < n && d.is_prefix_of(#[trigger] shard_dir_of(root, j)) by {
+        assert(d.is_prefix_of(shard_dir_of(root, i)));
+    }
+}
+
+pub proof fn lemma_sharded_then_maint(old: World, m: World, fin: World, root: PathV, n: usize, name: Seq<u8>, value: PathV)
+    requires
+        sharded_frame(old, m, root, n, name, value),
+        sharded_maint_frame(m, fin, root, n),
+        m.cache_dirs == old.cache_dirs,
+    ensures
+        sharded_frame(old, fin, root, n, name, value),
+        forall|p: PathV| #[trigger] fin.files.contains_key(p) ==> m.files.contains_key(p),
+{
+    assert forall|p: PathV| old.files.contains_key(p) && !(#[trigger] fin.files.contains_key(p)) implies p == value || exists|j: usize| j < n && (#[trigger] shard_dir_of(root, j) == parent(p) && old.in_cache_namespace(p)
+        || (p.len() > 0 && parent(p) == child(shard_dir_of(root, j), temp_name()))) by {
+        if m.files.contains_key(p) {
+            let j = choose|j: usize| j < n && (#[trigger] shard_dir_of(root, j) == parent(p) && m.in_cache_namespace(p) || (p.len() > 0 && parent(p) == child(shard_dir_of(root, j), temp_name())));
+            assert(shard_dir_of(root, j) == parent(p) && old.in_cache_namespace(p) || (p.len() > 0 && parent(p) == child(shard_dir_of(root, j), temp_name())));
+        }
+    }
+}
+
+/// C11: where the one possibly-new link may appear decides that no second copy can arise.
+pub proof fn lemma_single_copy(old: World, fin: World, pa: PathV, pb: PathV, target: PathV, existed_b: bool)
+    requires
+        pa != pb,
+        forall|p: PathV| #[trigger] fin.files.contains_key(p) && !old.files.contains_key(p) ==> p == target,
+        existed_b ==> target == pb && old.files.contains_key(pb),
+        !existed_b ==> target == pa && !old.files.contains_key(pb),
+    ensures
+        !(old.files.contains_key(pa) && old.files.contains_key(pb)) ==> !(fin.files.contains_key(pa) && fin.files.contains_key(pb)),
+{
+}
+
+/// Two different shards of one root have different entry paths for the same name.
+pub proof fn lemma_entries_differ(root: PathV, i: usize, j: usize, name: Seq<u8>)
+    requires
+        i != j,
+    ensures
+        child(shard_dir_of(root, i), name) != child(shard_dir_of(root, j), name),
+        shard_dir_of(root, i) != shard_dir_of(root, j),
+{
+    broadcast use group_sharded;
+    lemma_child(root, fmt_shard(i));
+    lemma_child(root, fmt_shard(j));
+    lemma_child(shard_dir_of(root, i), name);
+    lemma_child(shard_dir_of(root, j), name);
+    assert(fmt_shard(i) != fmt_shard(j));
+}
+
+/// `temp_dir`: stale temporary files of one shard may go, directories leading to a shard's temp dir may appear.
+pub open spec fn sharded_temp_frame(old: World, fin: World, root: PathV, n: usize) -> bool {
+    &&& fin.inodes == old.inodes
+    &&& fin.published == old.published
+    &&& forall|d: PathV| #[trigger] old.dirs.contains(d) ==> fin.dirs.contains(d)
+    &&& forall|d: PathV| #[trigger] fin.dirs.contains(d) && !old.dirs.contains(d) ==> exists|i: usize| i < n && d.is_prefix_of(#[trigger] child(shard_dir_of(root, i), temp_name()))
+    &&& forall|p: PathV| #[trigger] fin.files.contains_key(p) ==> old.files.contains_key(p) && fin.files[p] == old.files[p]
+    &&& forall|p: PathV| old.files.contains_key(p) && !(#[trigger] fin.files.contains_key(p)) ==> exists|i: usize| i < n && p.len() > 0 && parent(p) == #[trigger] child(shard_dir_of(root, i), temp_name())
+}
+
+pub proof fn lemma_temp_frames(old: World, o2: World, root: PathV, n: usize, i: usize)
+    requires
+        i < n,
+        o2.same_fs(old),
+        o2.published == old.published,
+    ensures
+        sharded_temp_frame(old, o2, root, n),
+        forall|a: World, t: int| #[trigger] temp_frame(o2, a, child(shard_dir_of(root, i), temp_name()), t) && a.published == old.published ==> sharded_temp_frame(old, a, root, n),
+        forall|a: World, b: World| #[trigger] sharded_temp_frame(old, a, root, n) && b.files == a.files && b.inodes == a.inodes && b.published == a.published && (forall|d: PathV| #[trigger] a.dirs.contains(d) ==> b.dirs.contains(d))
+            && (forall|d: PathV| #[trigger] b.dirs.contains(d) ==> a.dirs.contains(d) || d.is_prefix_of(child(shard_dir_of(root, i), temp_name()))) && #[trigger] b.kept(a) ==> sharded_temp_frame(old, b, root, n),
+{
+    assert forall|a: World, t: int| #[trigger] temp_frame(o2, a, child(shard_dir_of(root, i), temp_name()), t) && a.published == old.published implies sharded_temp_frame(old, a, root, n) by {
+        assert forall|p: PathV| old.files.contains_key(p) && !(#[trigger] a.files.contains_key(p)) implies exists|j: usize| j < n && p.len() > 0 && parent(p) == #[trigger] child(shard_dir_of(root, j), temp_name()) by {
+            assert(parent(p) == child(shard_dir_of(root, i), temp_name()));
+        }
+    }
+    assert forall|a: World, b: World| #[trigger] sharded_temp_frame(old, a, root, n) && b.files == a.files && b.inodes == a.inodes && b.published == a.published && (forall|d: PathV| #[trigger] a.dirs.contains(d) ==> b.dirs.contains(d))
+        && (forall|d: PathV| #[trigger] b.dirs.contains(d) ==> a.dirs.contains(d) || d.is_prefix_of(child(shard_dir_of(root, i), temp_name()))) && #[trigger] b.kept(a) implies sharded_temp_frame(old, b, root, n) by {
+        assert forall|d: PathV| #[trigger] b.dirs.contains(d) && !old.dirs.contains(d) implies exists|j: usize| j < n && d.is_prefix_of(#[trigger] child(shard_dir_of(root, j), temp_name())) by {
+            if !a.dirs.contains(d) {
+                assert(d.is_prefix_of(child(shard_dir_of(root, i), temp_name())));
+            }
+        }
+    }
+}
+
+/// Writes: like `sharded_maint_frame`, plus the one new entry, the consumed source and directories on the way
+/// to a shard directory.
+pub open spec fn sharded_frame(old: World, fin: World, root: PathV, n: usize, name: Seq<u8>, value: PathV) -> bool {
+    &&& forall|d: PathV| #[trigger] old.dirs.contains(d) ==> fin.dirs.contains(d)
+    &&& forall|d: PathV| #[trigger] fin.dirs.contains(d) && !old.dirs.contains(d) ==> exists|i: usize| i < n && d.is_prefix_of(#[trigger] shard_dir_of(root, i))
+    &&& forall|p: PathV| #[trigger] fin.files.contains_key(p) && !old.files.contains_key(p) ==> exists|i: usize| i < n && p == child(#[trigger] shard_dir_of(root, i), name)
+    &&& forall|p: PathV| old.files.contains_key(p) && !(#[trigger] fin.files.contains_key(p)) ==> p == value || exists|i: usize| i < n && (#[trigger] shard_dir_of(root, i) == parent(p) && old.in_cache_namespace(p)
+        || (p.len() > 0 && parent(p) == child(shard_dir_of(root, i), temp_name())))
+}
 ''')
 
     ish = u.item('src/sharded.rs', ['impl Shard'])
     rs = u.under_contract(ish.sub(['fn replace_shard']), ['C12', 'C16'])
     rs.air = 'sharded::Shard::replace_shard'
     rs.contract(
-        requires=[('', 'pbv(self.shard_dir).len() > 0')],
         ensures=[('C12 C16:shard-directory-is-the-formatted-id-below-the-same-root',
-                  'r.id == id && pbv(r.shard_dir) == shard_dir_of(parent(pbv(self.shard_dir)), id) && r.trigger == self.trigger && r.capacity == self.capacity')])
+                  'r.id == id && r.trigger == self.trigger && r.capacity == self.capacity '
+                  '&& (pbv(self.shard_dir).len() > 0 ==> pbv(r.shard_dir) == shard_dir_of(parent(pbv(self.shard_dir)), id))')])
     rs.body_start('broadcast use group_asref;\n        broadcast use group_sharded;')
     fe = u.under_contract(ish.sub(['fn file_exists']), ['C11', 'C16', 'C20', 'C06', 'C15', 'C12'])
     fe.air = 'sharded::Shard::file_exists'
@@ -215,7 +369,119 @@ impl Shard {
         g.insert_after('let shard = self . shard ( h1 ) ;', '\n        proof { lemma_child(self.spec_root(), fmt_shard(h1)); lemma_child(self.spec_root(), fmt_shard(h2)); '
                        'assert(shard.spec_base() == shard_dir_of(self.spec_root(), h1)); }')
 
-    KEEP = {'new', 'random_shard_id', 'other_shard_id', 'shard_ids', 'sort_by_load', 'shard', 'get', 'touch'}
+    # ---- maintenance helpers ------------------------------------------------------------------
+    ue = im.sub(['fn update_estimate'])
+    ue.attr('#[verifier::external_body]')
+    u.trusted_notes.append('sharded::Cache::update_estimate is external_body (AtomicU8::fetch_update with a closure is outside Verus): it only touches '
+                           'the in-memory load estimates, whose values every other contract treats as arbitrary; its panic-freedom is not verified')
+
+    fm = u.under_contract(im.sub(['fn force_maintain_shard']), ['C07', 'C17', 'C02', 'C05', 'C18', 'C15', 'C16', 'C06'])
+    fm.air = 'sharded::Cache::force_maintain_shard'
+    fm.add_param(W)
+    fm.add_arg('shard . maintain', TW)
+    MAINT_ENS = [
+        INV, ('', 'final(w).kept(*old(w))'),
+        ('C17 C07 C15 C16:maintenance-is-confined-to-the-shard-directories-of-this-cache', 'sharded_maint_frame(*old(w), *final(w), self.spec_root(), self.spec_n())'),
+        ('C05 C18:error-is-a-real-fault', 'r.is_err() ==> final(w).hard_faults > old(w).hard_faults'),
+        ('C06:linear-in-the-number-of-directory-entries', 'final(w).steps <= old(w).steps + 4 + 3 * (final(w).listed - old(w).listed) && final(w).opens <= old(w).opens + 2'),
+    ]
+    fm.contract(requires=[('', 'old(w).inv() && self.rw(*old(w)) && shard.at(self.spec_root()) && shard.id < self.spec_n()')], ensures=MAINT_ENS)
+    fm.body_start('broadcast use group_sharded;\n        proof { lemma_shard_rw(*self, *old(w), shard.id); lemma_maint_from_cleanup(*old(w), self.spec_root(), self.spec_n(), shard.id); }')
+
+    mr = u.under_contract(im.sub(['fn maintain_random_other_shard']), ['C07', 'C17', 'C02', 'C05', 'C18', 'C15', 'C16', 'C12'])
+    mr.air = 'sharded::Cache::maintain_random_other_shard'
+    mr.add_param(W)
+    mr.add_arg('self . force_maintain_shard', TW)
+    mr.contract(requires=[('', 'old(w).inv() && self.rw(*old(w)) && base.at(self.spec_root()) && base.id < self.spec_n()')], ensures=MAINT_ENS)
+    mr.body_start('broadcast use group_sharded;\n        proof { lemma_child(self.spec_root(), fmt_shard(base.id)); }')
+
+    td = u.under_contract(im.sub(['fn temp_dir']), ['C02', 'C16', 'C17', 'C12', 'C18', 'C15'])
+    td.air = 'sharded::Cache::temp_dir'
+    td.add_param(W)
+    td.add_arg('self . trigger . event', TW)
+    td.add_arg('shard . cleanup_temp_directory', TW)
+    td.add_arg('shard . ensure_temp_dir', TW)
+    td.contract(
+        requires=[('', 'old(w).inv() && self.rw(*old(w))')],
+        ensures=[INV, ('', 'final(w).kept_nc(*old(w))'),
+                 ('C02 C16 C12:temp-dir-is-the-kismet-temp-subdirectory-of-a-shard-of-this-cache',
+                  'r.is_ok() ==> exists|i: usize| i < self.spec_n() && cowv(r.unwrap()) == #[trigger] child(shard_dir_of(self.spec_root(), i), temp_name()) && final(w).dirs.contains(cowv(r.unwrap()))'),
+                 ('C17 C15 C16:only-stale-temporary-files-go-and-only-directories-of-this-cache-are-created', 'sharded_temp_frame(*old(w), *final(w), self.spec_root(), self.spec_n())'),
+                 ('C18:error-is-a-real-fault', 'r.is_err() ==> final(w).hard_faults > old(w).hard_faults')])
+    td.body_start('broadcast use group_sharded;')
+    td.insert_after('let shard = self . shard ( shard_id ) ;',
+                    '\n        proof { if key.is_some() { lemma_shard_ids(key.unwrap().hash, key.unwrap().secondary_hash, self.spec_n()); } '
+                    'lemma_shard_rw(*self, *old(w), shard_id); lemma_child(shard_dir_of(self.spec_root(), shard_id), temp_name()); '
+                    '}')
+    td.insert_before('shard . cleanup_temp_directory', 'proof { lemma_temp_frames(*old(w), *w, self.spec_root(), self.spec_n(), shard_id); }\n            ')
+    td.insert_before('Ok ( Cow :: from ( shard . ensure_temp_dir', 'proof { if w.same_fs(*old(w)) { lemma_temp_frames(*old(w), *w, self.spec_root(), self.spec_n(), shard_id); } '
+                     'assert(sharded_temp_frame(*old(w), *w, self.spec_root(), self.spec_n())); lemma_temp_frames(*old(w), *old(w), self.spec_root(), self.spec_n(), shard_id); }\n        ')
+
+    # ---- writes ----------------------------------------------------------------------------------
+    for opname, nsteps in (('set', 12), ('put', 14)):
+        f = u.under_contract(im.sub(['fn ' + opname]), ['C11', 'C12', 'C16', 'C17', 'C15', 'C18', 'C05', 'C01', 'C02', 'C03', 'C10', 'C06', 'C20'])
+        f.air = 'sharded::Cache::' + opname
+        f.add_param(W)
+        f.add_arg('shard . file_exists', TW)
+        f.add_arg('shard . ' + opname, TW)
+        f.add_arg('self . maintain_random_other_shard', TW)
+        f.add_arg('self . force_maintain_shard', TW)
+        f.contract(
+            requires=[('', 'old(w).inv() && self.rw(*old(w))'),
+                      ('C01 C03:caller-hands-in-a-private-finished-file-holding-the-value-for-this-key',
+                       '%s ==> value_ready(*old(w), pv(value), shard_dir_of(self.spec_root(), %s as usize), str_bytes(key.name)) '
+                       '&& value_ready(*old(w), pv(value), shard_dir_of(self.spec_root(), %s as usize), str_bytes(key.name))' % (NAMEOK, S1, S2))],
+            ensures=[
+                INV, ('', 'final(w).kept_nc(*old(w))'),
+                ('C16:invalid-names-fail-with-invalid-input-and-modify-nothing',
+                 '%s ==> r.is_err() && err_kind(err_of(r)) == ErrorKind::InvalidInput && final(w).same_fs(*old(w)) && final(w).counter == old(w).counter '
+                 '&& final(w).published == old(w).published' % BADNAME),
+                ('C12 C16:an-entry-is-only-ever-stored-under-one-of-its-two-candidate-shards',
+                 'forall|p: PathV| #[trigger] final(w).files.contains_key(p) && !old(w).files.contains_key(p) ==> p == %s || p == %s' % (P1, P2)),
+                ('C11:a-sharded-cache-never-ends-up-with-two-copies-of-one-key',
+                 'final(w).hard_faults == old(w).hard_faults && !(old(w).files.contains_key(%s) && old(w).files.contains_key(%s)) && !old(w).dirs.contains(%s) && !old(w).dirs.contains(%s) '
+                 '==> !(final(w).files.contains_key(%s) && final(w).files.contains_key(%s))' % (P1, P2, P1, P2, P1, P2)),
+                ('C11 C18:success-consumes-the-source', 'r.is_ok() ==> old(w).files.contains_key(pv(value)) && !final(w).files.contains_key(pv(value))'),
+                ('C17 C15 C16:everything-that-changes-is-inside-the-shard-directories-of-this-cache',
+                 'sharded_frame(*old(w), *final(w), self.spec_root(), self.spec_n(), str_bytes(key.name), pv(value))'),
+                ('C18 C05:error-is-explained',
+                 'r.is_err() ==> %s || final(w).hard_faults > old(w).hard_faults || !final(w).files.contains_key(pv(value))' % BADNAME),
+                ('C06 C20:filesystem-calls-are-a-constant-plus-three-per-directory-item-read-by-maintenance',
+                 'final(w).steps <= old(w).steps + %d + 3 * (final(w).listed - old(w).listed) && final(w).opens <= old(w).opens + 4' % (nsteps + 8)),
+            ])
+        ROOT = 'self.spec_root()'
+        NM = 'str_bytes(key.name)'
+        f.body_start('broadcast use group_sharded;\n        proof { lemma_shard_ids(key.hash, key.secondary_hash, self.spec_n()); '
+                     'if first_byte_ok(%s) && !%s.contains(0x2fu8) { lemma_valid_key(%s); } }' % (NM, NM, NM))
+        f.insert_after('let mut shard = self . shard ( h2 ) ;',
+                       '\n        proof { lemma_child(%s, fmt_shard(h1)); lemma_child(%s, fmt_shard(h2)); lemma_entries_differ(%s, h1, h2, %s); }' % (ROOT, ROOT, ROOT, NM))
+        f.insert_before('let update = shard .',
+                        'let ghost w0 = *w;\n        let ghost tgt = shard.id;\n        let ghost existed2 = (tgt == h2);\n'
+                        '        proof {\n'
+                        '            if valid_key(%s) {\n'
+                        '                assert(shard.at(%s));\n'
+                        '                lemma_shard_rw(*self, w0, tgt);\n'
+                        '                lemma_child(shard_dir_of(%s, tgt), %s);\n'
+                        '            }\n'
+                        '            // whatever the directory-level write does (error exits included) is confined as the postconditions say\n'
+                        '            assert forall|fin: World| #[trigger] write_frame(w0, fin, shard_dir_of(%s, tgt), %s, pv(value)) && valid_key(%s) implies\n'
+                        '                sharded_frame(*old(w), fin, %s, self.spec_n(), %s, pv(value))\n'
+                        '                && (forall|p: PathV| #[trigger] fin.files.contains_key(p) && !old(w).files.contains_key(p) ==> p == child(shard_dir_of(%s, tgt), %s)) by {\n'
+                        '                lemma_sharded_from_write(w0, fin, %s, self.spec_n(), tgt, %s, pv(value));\n'
+                        '            }\n'
+                        '        }\n        ' % (NM, ROOT, ROOT, NM, ROOT, NM, NM, ROOT, NM, ROOT, NM, ROOT, NM))
+        f.insert_after('let update = shard . %s ( key . name , value ) ? ;' % opname,
+                       '\n        let ghost w1 = *w;\n'
+                       '        proof {\n'
+                       '            assert forall|fin: World| #[trigger] sharded_maint_frame(w1, fin, %s, self.spec_n()) && fin.kept(w1) implies\n'
+                       '                sharded_frame(*old(w), fin, %s, self.spec_n(), %s, pv(value))\n'
+                       '                && (forall|p: PathV| #[trigger] fin.files.contains_key(p) ==> w1.files.contains_key(p)) by {\n'
+                       '                lemma_sharded_then_maint(*old(w), w1, fin, %s, self.spec_n(), %s, pv(value));\n'
+                       '            }\n'
+                       '        }' % (ROOT, ROOT, NM, ROOT, NM))
+
+    KEEP = {'new', 'random_shard_id', 'other_shard_id', 'shard_ids', 'sort_by_load', 'shard', 'get', 'touch', 'update_estimate',
+            'force_maintain_shard', 'maintain_random_other_shard', 'temp_dir', 'set', 'put'}
     dropped = im.drop_members_except(KEEP)
     if dropped:
         u.dropped.append('sharded.rs: members of impl Cache not (yet) under contract: ' + ', '.join(dropped))
